@@ -106,6 +106,13 @@ def loop_programs():
                       dict(structs=[], globals=[], funcs=[], types={},
                            main=[("decl", "Z", "n", I(0)), ("decl", ("L", "Z"), "l", lst), ("foreach", "Z", "x", idx, V("l"), body),
                                  nl, ("println", V("l")), ("println", V("n"))])))
+    # `Wiederhole … n Mal`: a count of zero or below means no repetition at all, whatever numeric type the count has
+    for cl, cnt in (("minus-1", I(-1)), ("minus-5", I(-5)), ("zero", I(0)), ("variable-minus-2", V("m")), ("computed", ("bin", "minus", I(2), I(4))),
+                    ("kommazahl-minus", ("float", gen.bits_of_float(1.5) + 2 ** 63))):
+        progs.append(("repeat-count:" + cl, dict(structs=[], globals=[], funcs=[], types={},
+                                                 main=[("decl", "Z", "m", I(-2)), ("decl", "Z", "n", I(0)),
+                                                       ("repeat", cnt, [("compound", "plus", V("n"), I(1)), ("if", ("bin", "gt", V("n"), I(7)), [("break",)], [])]),
+                                                       ("println", V("n"))])))
     for lab, stmts in forms("a", []):
         progs.append((lab, dict(structs=[], globals=[], funcs=[], main=stmts + [nl, ("println", ("var", "na"))], types={})))
     # nested: the inner loop (with its own jumps) inside each outer form without jump; the outer index is observed after it
